@@ -21,7 +21,7 @@ func init() { register(c10{}) }
 func (c10) ID() string { return "C10" }
 
 func (c10) Rule() string {
-	return "case = (implementation: in-memory, file-system (fresh directory, optionally with pre-existing empty and header-only files), SQL (real SQLRepository + database/sql over a simulated driver); history of 3-12 operations Append/Get/GetSince/LastDate/Assets over names A B C and the never-appended Z; appended snapshots carry finite float64 values from edge pools and whole-day UTC dates from 2000 on, strictly increasing per asset except for backfilling appends (in-memory and file-system only); GetSince bounds on, just before, just after and between stored dates; reads are issued right after Append returns under schedules that starve whatever the Append left behind; scheduling policy+seed); " +
+	return "case = (implementation: in-memory, file-system (fresh directory, optionally with pre-existing empty and header-only files), SQL (real SQLRepository + database/sql over a simulated driver); history of 3-12 operations Append/Get/GetSince/LastDate/Assets over names A B C and the never-appended Z; appended snapshots carry finite float64 values from edge pools and whole-day UTC dates from 2000 on, strictly increasing per asset except for backfilling / same-day-again appends; GetSince bounds on, just before, just after and between stored dates; reads are issued right after Append returns under schedules that starve whatever the Append left behind; scheduling policy+seed); " +
 		"oracle: a map[string][]Snapshot stepped operation by operation; " +
 		"a cell (implementation, operation bigram, result class, policy) is non-trivial when the bigram contains an Append; distinct_nontrivial counts distinct cells"
 }
@@ -47,10 +47,10 @@ func (c10) Gen(rng *rand.Rand, tier string, k int) *Case {
 		case x < 4:
 			cnt := rng.Intn(5)
 			gap := rng.Intn(3)
-			if c.Impl != "sql" && next[name] > 2 && rng.Intn(4) == 0 {
-				// backfill: dates before what is already stored (append order != date order). Not for
-				// SQL, whose read is ordered by date, so that only date-ordered histories have one answer.
-				c.Ops = append(c.Ops, OpSpec{Op: "append", Name: name, N: 1 + rng.Intn(3), From: rng.Intn(next[name] - 1), Seed: rng.Int63n(1 << 30)})
+			if next[name] > 2 && rng.Intn(4) == 0 {
+				// backfill or same-day-again: dates at or before what is already stored (append order
+				// != date order); the specification is the list of appended snapshots, in append order
+				c.Ops = append(c.Ops, OpSpec{Op: "append", Name: name, N: 1 + rng.Intn(3), From: rng.Intn(next[name]), Seed: rng.Int63n(1 << 30)})
 				break
 			}
 			c.Ops = append(c.Ops, OpSpec{Op: "append", Name: name, N: cnt, From: next[name] + gap, Seed: rng.Int63n(1 << 30)})
